@@ -68,6 +68,7 @@ def _case(draw, tier):
             "names": draw(st.integers(0, 2)),
             "lon360": draw(st.booleans()),
             "face_coords": draw(st.booleans()),
+            "centres_lon360": draw(st.booleans()),
             "extras": draw(st.sampled_from([[], [], ["edge_node_connectivity"], ["edge_node_connectivity", "face_edge_connectivity"], ["edge_node_connectivity", "face_edge_connectivity", "edge_face_connectivity"]])),
             "edge_seed": draw(st.integers(0, 99)),
             "dim_attrs": draw(st.booleans()),
@@ -87,7 +88,7 @@ def _case(draw, tier):
         }
     elif fmt == "scrip":
         mesh = draw(_mesh(big))
-        d = {"lon360": draw(st.booleans())}  # SCRIP fixes its dimension names (grid_size, grid_corners)
+        d = {"lon360": draw(st.booleans()), "centres_lon360": draw(st.booleans())}  # SCRIP fixes its dimension names
     elif fmt == "exodus":
         mesh = draw(_mesh(big))
         d = {
@@ -104,6 +105,7 @@ def _case(draw, tier):
             "dtype": draw(st.sampled_from(["int32", "int64"])),
             "lon360": draw(st.booleans()),
             "centers": draw(st.booleans()),
+            "centres_lon360": draw(st.booleans()),
             "extra_cols": draw(st.sampled_from([0, 1])),
         }
     elif fmt == "geos":
